@@ -196,7 +196,12 @@ def _judge_cast(self, Lang, out, err):
     else:
         mods = module_set(out)
         want = 'pyModelChecking.%s.language' % target
-        if mods != {want}:
+        # CTL and LTL objects ARE CTL* objects (sub-logics, subclasses)
+        allowed = {want}
+        if target == 'CTLS':
+            allowed |= {'pyModelChecking.CTL.language',
+                        'pyModelChecking.LTL.language'}
+        if not mods <= allowed:
             LOG.violation('c08.cast', PROP, case, sorted(mods), [want],
                           note='cast result has nodes outside the target '
                                'language module')
